@@ -133,20 +133,36 @@ def raw_records(seed):
             [(r.randrange(-(1 << 34), 1 << 34), r.getrandbits(64)) for _ in range(20)]
     a = np.array([(f, s) for (s, f) in pairs], dtype=[("second_fractions", "<u8"), ("seconds", "<i8")])
     buf = io.BytesIO()
+    # the channel is written in three segments (so that it is read in several chunks, and defragment has work to do)
+    cuts = [0, 8, 17, len(pairs)]
     with TdmsWriter(buf) as w:
-        w.write_segment([RootObject({"t%d" % i: TdmsTimestamp(s, f) for i, (s, f) in enumerate(pairs)}),
-                         ChannelObject("g", "c", TimestampArray(a))])
+        for j in range(3):
+            objs = [ChannelObject("g", "c", TimestampArray(a[cuts[j]:cuts[j + 1]]))]
+            if j == 0:
+                objs.insert(0, RootObject({"t%d" % i: TdmsTimestamp(s, f) for i, (s, f) in enumerate(pairs)}))
+            w.write_segment(objs)
     f1 = TdmsFile.read(io.BytesIO(buf.getvalue()), raw_timestamps=True)
     out = io.BytesIO()
     TdmsWriter.defragment(io.BytesIO(buf.getvalue()), out)
     f2 = TdmsFile.read(io.BytesIO(out.getvalue()), raw_timestamps=True)
     recs = []
-    for stage, f in (("write-read", f1), ("defragment", f2)):
-        data = f["g"]["c"][:]
+    stages = [("write-read", f1, f1["g"]["c"][:]), ("defragment", f2, f2["g"]["c"][:])]
+    with TdmsFile.open(io.BytesIO(buf.getvalue()), raw_timestamps=True) as f3:
+        ch = f3["g"]["c"]
+        stages.append(("write-open-slice", f3, ch[:]))
+        stages.append(("write-open-read_data", f3, np.concatenate([ch.read_data(0, 5), ch.read_data(5, len(pairs))])))
+        stages.append(("write-open-chunks", f3, np.concatenate([c[:] for c in ch.data_chunks()])))
+    with TdmsFile.open(io.BytesIO(out.getvalue()), raw_timestamps=True) as f4:
+        stages.append(("defragment-open-slice", f4, f4["g"]["c"][:]))
+    for stage, f, data in stages:
+        if len(data) != len(pairs):
+            raise AssertionError("raw timestamp channel of %d values read back with %d (%s)" % (len(pairs), len(data), stage))
         for i, (s, fr) in enumerate(pairs):
             for src, t in (("channel", data[i]), ("property", f.properties["t%d" % i])):
                 recs.append({"kind": "raw", "sec": limbs(s + BIAS_S), "frac": limbs(fr),
-                             "sec_back": limbs(int(t.seconds) + BIAS_S), "frac_back": limbs(int(t.second_fractions)),
+                             "sec_back": limbs(int(t.seconds if hasattr(t, "seconds") else t["seconds"]) + BIAS_S),
+                             "frac_back": limbs(int(t.second_fractions if hasattr(t, "second_fractions")
+                                                    else t["second_fractions"])),
                              "dbg": [stage, src, s, fr]})
     return recs
 
